@@ -40,11 +40,14 @@ SHARDS.update({
     "urwid/vterm.py:TermCanvas.insert_chars": (4, 4),
     "urwid/vterm.py:TermCanvas.remove_chars": (4, 4),
     "urwid/vterm.py:TermCanvas.erase": (6, 4),
+    "urwid/vterm.py:TermCanvas.parse_csi": (8, 2),
+    "urwid/vterm.py:TermCanvas.set_tabstop": (4, 4),
 })
 
 # Solver-strategy flags per contract file (no semantic content).
 MODULE_FLAGS = {
     "contracts.C15_vterm": {"qf_forall_only": True},
+    "contracts.C15_parser": {"qf_forall_only": True},
 }
 
 SHARDS.update({
